@@ -184,7 +184,9 @@ def _post_fit(call):
         inactive = bounds is None or all((lo is None or s > lo + 1e-6) and (hi is None or s < hi - 1e-6) for s, (lo, hi) in zip(sol, bounds))
         if inactive and np.linalg.matrix_rank(A) == A.shape[1] and x.size > A.shape[1]:
             scale = np.max(np.abs(sol)) + 1e-12
-            c.check("c14.linear-is-lstsq", bool(np.all(np.abs(np.asarray(p) - sol) <= 1e-6 * scale + 1e-9)), "a shape that is linear in its parameters is not fitted to the linear least-squares solution", lstsq=sol.tolist(), **info)
+            # (curve_fit stops on a relative change of 1e-8 in the cost; with regressors 1, x, x**2 up to 144 the parameters are
+            #  then good to a few 1e-6 of the largest one - 3.6e-6 seen; a fit to other data or with other weights is off by 1e-3)
+            c.check("c14.linear-is-lstsq", bool(np.all(np.abs(np.asarray(p) - sol) <= 1e-4 * scale + 1e-9)), "a shape that is linear in its parameters is not fitted to the linear least-squares solution", lstsq=sol.tolist(), **info)
 
 
 def _eps_mechanism(dep, x, y, p0, bounds, p):
